@@ -74,6 +74,20 @@ func verifC09GenExpiry(t *rapid.T) *verifC09ExpCase {
 	}
 	durs := []time.Duration{1, 999999, time.Millisecond, time.Millisecond + 1, time.Second, 29 * time.Second, 31 * time.Second,
 		time.Hour - time.Millisecond, time.Hour, 2 * time.Hour}
+	if rapid.Bool().Draw(t, "skeleton") {
+		// forced shape: resolve while valid, let the token expire (possibly still inside the identity-cache TTL), resolve again
+		var ds []time.Duration
+		if rapid.Bool().Draw(t, "skel-ms") {
+			cs.Offsets[0] = "+1ms"
+			ds = []time.Duration{time.Millisecond + 1, time.Second, 29 * time.Second, 31 * time.Second, 2 * time.Hour}
+		} else {
+			cs.Offsets[0] = "+1h"
+			ds = []time.Duration{time.Hour + 1, 2 * time.Hour}
+		}
+		cs.Steps = append(cs.Steps, verifC09ExpStep{Kind: "resolve", Tok: 0},
+			verifC09ExpStep{Kind: "advance", Dur: int64(ds[verifC09U(t, len(ds), "skel-dur")])},
+			verifC09ExpStep{Kind: "resolve", Tok: 0})
+	}
 	n := 3 + verifC09U(t, 10, "nsteps")
 	for i := 0; i < n; i++ {
 		switch k := verifC09U(t, 12, "step"); {
